@@ -32,6 +32,9 @@ const POOL: &[&str] = &[
     // container that holds both kinds)
     "adv$tag=b",
     "adv$tag=c",
+    // a second tagged exception under the tag of the first one, in its bucket (the two are fusion
+    // candidates: whatever is built from them still carries the tag)
+    "@@advisor$tag=b",
     // (no tagged `$redirect=` rule: src/blocker.rs documents "`tag` + `redirect` is unsupported
     // for now" and the property's category list does not name it; such rules are never active)
 ];
@@ -57,7 +60,7 @@ fn tag_of(rule: &str) -> Option<&str> {
 
 fn battery() -> Vec<(String, &'static str, &'static str)> {
     let mut v = vec![];
-    for u in ["https://x.com/adv", "https://x.com/advice", "https://x.com/advert", "https://x.com/advert/x", "https://x.com/foo1bar", "https://x.com/", "https://y.com/adv", "https://y.com/", "https://w.com/advice?adv", "https://w.com/foo/bar"] {
+    for u in ["https://x.com/adv", "https://x.com/advice", "https://x.com/advisor", "https://x.com/advert", "https://x.com/advert/x", "https://x.com/foo1bar", "https://x.com/", "https://y.com/adv", "https://y.com/", "https://w.com/advice?adv", "https://w.com/foo/bar"] {
         for ty in ["script", "document", "subdocument"] {
             v.push((u.to_string(), "https://z.com/", ty));
         }
